@@ -2,6 +2,7 @@
 import HctlModel.Proto
 import HctlModel.Api
 import HctlModel.GraphCheck
+import HctlModel.Cli
 namespace Hctl.EvalProto
 open Hctl Hctl.Proto
 
@@ -101,6 +102,39 @@ def handle? (st : DriverState) (line : String) : Option (DriverState × String) 
             | .panic s => showOutcome E false (.panic s)
           | _ => "bad-request"
         | _ => "bad-request"
+      some (st, out)
+  | ["cli", ext, chars] =>
+    -- the command-line tool on a formula file (the model `Cli.analyse`); the graphs of the network for the various
+    -- numbers of variable sets are the exported graph with the field `k` replaced
+    match st.env with
+    | none => some (st, "no-graph")
+    | some E =>
+      let (cs, table) := decChars chars
+      let K := classOf table
+      let net : Nat → Env := fun k' => if k' = E.G.k then E else driverEnv { E.G with k := k' }
+      let out := match Cli.analyse net K (ext == "1") st.ctxSets cs with
+        | .message e => "msg " ++ errName e
+        | .panic _ => "panic"
+        | .results k trees rs =>
+          s!"ok k={k} trees=" ++ ";".intercalate (trees.map (fun t => encName t.render)) ++ " " ++
+            " ".intercalate (rs.map (showSet (net k).pts))
+      some (st, out)
+  | ["cliprint", ext, mode, chars] =>
+    -- what the tool prints per formula: the three counts, and (exhaustive mode) the listed states
+    match st.env with
+    | none => some (st, "no-graph")
+    | some E =>
+      let (cs, table) := decChars chars
+      let K := classOf table
+      let net : Nat → Env := fun k' => if k' = E.G.k then E else driverEnv { E.G with k := k' }
+      let out := match Cli.analyse net K (ext == "1") st.ctxSets cs with
+        | .message e => "msg " ++ errName e
+        | .panic _ => "panic"
+        | .results k _ rs =>
+          "ok " ++ " ".intercalate (rs.map (fun r =>
+            let (a, b, c) := Cli.counts (net k).G r
+            if mode == "full" then s!"{a}/{b}/{c}:" ++ ".".intercalate ((Cli.listed (net k).G r).map toString)
+            else s!"{a}/{b}/{c}"))
       some (st, out)
   | ["steady"] =>
     match st.env with
